@@ -1,6 +1,6 @@
 (* C19: property theorems (statements in full; proofs in Proofs*.v). *)
 From Coq Require Import List NArith ZArith Bool.
-From C19 Require Import Gen Model Spec ProofsPtr ProofsPatch ProofsPatchExact ProofsParse ProofsNum RTNum ProofsDouble RTStr RTDefs RTMain RTFinal ProofsPatchDoc.
+From C19 Require Import Gen Model Spec ProofsPtr ProofsPatch ProofsPatchExact ProofsParse ProofsNum RTNum ProofsDouble RTStr RTDefs RTMain RTFinal RTDouble ProofsPatchDoc.
 Import ListNotations.
 Local Open Scope N_scope.
 
@@ -55,6 +55,45 @@ Example c19_uint64_max_is_not_minus_one :
   num_lt_cpp (JInt64 (-9223372036854775808)) (JUInt64 9223372036854775808) = true.
 Proof. vm_compute. repeat split. Qed.
 
+(* The message texts and JSON Patch keywords the model and the correspondence use are REGENERATED on
+   every run from the repository sources (Gen.v: SetError literals of JsonLexer.cpp in source order,
+   m_error literals of JsonParser.cpp, the k... constants and SetError literals of
+   JsonPatchParser.cpp); this pins them to the texts the check was written against, so a changed
+   message or keyword in the code breaks a named obligation instead of passing unnoticed. *)
+Theorem c19_text_consts :
+  lexer_error_text 1 = [78; 111; 32; 74; 83; 79; 78; 32; 100; 97; 116; 97; 32; 102; 111; 117; 110; 100]   (* No JSON data found *) /\
+  lexer_error_text 2 = [85; 110; 116; 101; 114; 109; 105; 110; 97; 116; 101; 100; 32; 115; 116; 114; 105; 110; 103]   (* Unterminated string *) /\
+  lexer_error_text 3 = [73; 110; 118; 97; 108; 105; 100; 32; 115; 116; 114; 105; 110; 103; 32; 101; 115; 99; 97; 112; 101; 32; 115; 101; 113; 117; 101; 110; 99; 101]   (* Invalid string escape sequence *) /\
+  lexer_error_text 4 = [85; 110; 116; 101; 114; 109; 105; 110; 97; 116; 101; 100; 32; 97; 114; 114; 97; 121]   (* Unterminated array *) /\
+  lexer_error_text 5 = [69; 120; 112; 101; 99; 116; 101; 100; 32; 101; 105; 116; 104; 101; 114; 32; 44; 32; 111; 114; 32; 93; 32; 97; 102; 116; 101; 114; 32; 97; 110; 32; 97; 114; 114; 97; 121; 32; 101; 108; 101; 109; 101; 110; 116]   (* Expected either , or ] after an array element *) /\
+  lexer_error_text 6 = [85; 110; 116; 101; 114; 109; 105; 110; 97; 116; 101; 100; 32; 111; 98; 106; 101; 99; 116]   (* Unterminated object *) /\
+  lexer_error_text 7 = [69; 120; 112; 101; 99; 116; 101; 100; 32; 107; 101; 121; 32; 102; 111; 114; 32; 111; 98; 106; 101; 99; 116]   (* Expected key for object *) /\
+  lexer_error_text 8 = [77; 105; 115; 115; 105; 110; 103; 32; 58; 32; 97; 102; 116; 101; 114; 32; 107; 101; 121]   (* Missing : after key *) /\
+  lexer_error_text 9 = [73; 110; 99; 111; 114; 114; 101; 99; 116; 32; 99; 104; 97; 114; 97; 99; 116; 101; 114; 32; 97; 102; 116; 101; 114; 32; 107; 101; 121; 44; 32; 115; 104; 111; 117; 108; 100; 32; 98; 101; 32; 58]   (* Incorrect character after key, should be : *) /\
+  lexer_error_text 10 = [69; 120; 112; 101; 99; 116; 101; 100; 32; 101; 105; 116; 104; 101; 114; 32; 44; 32; 111; 114; 32; 125; 32; 97; 102; 116; 101; 114; 32; 97; 110; 32; 111; 98; 106; 101; 99; 116; 32; 118; 97; 108; 117; 101]   (* Expected either , or } after an object value *) /\
+  lexer_error_text 11 = [73; 110; 118; 97; 108; 105; 100; 32; 74; 83; 79; 78; 32; 118; 97; 108; 117; 101]   (* Invalid JSON value *) /\
+  lexer_error_text 12 = [77; 97; 120; 105; 109; 117; 109; 32; 110; 101; 115; 116; 105; 110; 103; 32; 100; 101; 112; 116; 104; 32; 101; 120; 99; 101; 101; 100; 101; 100]   (* Maximum nesting depth exceeded *) /\
+  lexer_error_text 0 = [] /\
+  patch_error_text 1 = [65; 32; 74; 83; 79; 78; 32; 80; 97; 116; 99; 104; 32; 100; 111; 99; 117; 109; 101; 110; 116; 32; 109; 117; 115; 116; 32; 98; 101; 32; 97; 110; 32; 97; 114; 114; 97; 121]   (* A JSON Patch document must be an array *) /\
+  patch_error_text 2 = [69; 108; 101; 109; 101; 110; 116; 115; 32; 119; 105; 116; 104; 105; 110; 32; 97; 32; 74; 83; 79; 78; 32; 80; 97; 116; 99; 104; 32; 97; 114; 114; 97; 121; 32; 109; 117; 115; 116; 32; 98; 101; 32; 111; 98; 106; 101; 99; 116; 115]   (* Elements within a JSON Patch array must be objects *) /\
+  patch_error_text 3 = [77; 105; 115; 115; 105; 110; 103; 32; 112; 97; 116; 104; 32; 115; 112; 101; 99; 105; 102; 105; 101; 114]   (* Missing path specifier *) /\
+  patch_error_text 4 = [77; 105; 115; 115; 105; 110; 103; 32; 111; 114; 32; 105; 110; 118; 97; 108; 105; 100; 32; 118; 97; 108; 117; 101]   (* Missing or invalid value *) /\
+  patch_error_text 5 = [77; 105; 115; 115; 105; 110; 103; 32; 102; 114; 111; 109; 32; 115; 112; 101; 99; 105; 102; 105; 101; 114]   (* Missing from specifier *) /\
+  patch_error_text 6 = [73; 110; 118; 97; 108; 105; 100; 32; 111; 114; 32; 109; 105; 115; 115; 105; 110; 103; 32; 39; 111; 112; 39]   (* Invalid or missing 'op' *) /\
+  handler_error_text 1 = [73; 110; 116; 101; 114; 110; 97; 108; 32; 101; 114; 114; 111; 114]   (* Internal error *) /\
+  K_OP = [111; 112]   (* "op" *) /\
+  K_PATH = [112; 97; 116; 104]   (* "path" *) /\
+  K_FROM = [102; 114; 111; 109]   (* "from" *) /\
+  K_VALUE = [118; 97; 108; 117; 101]   (* "value" *) /\
+  S_ADD = [97; 100; 100]   (* "add" *) /\
+  S_REMOVE = [114; 101; 109; 111; 118; 101]   (* "remove" *) /\
+  S_REPLACE = [114; 101; 112; 108; 97; 99; 101]   (* "replace" *) /\
+  S_MOVE = [109; 111; 118; 101]   (* "move" *) /\
+  S_COPY = [99; 111; 112; 121]   (* "copy" *) /\
+  S_TEST = [116; 101; 115; 116]   (* "test" *).
+Proof. vm_compute. repeat split. Qed.
+Print Assumptions c19_text_consts.
+
 (* The parser model is a function of the text alone: parsing a text after any history of other
    texts (valid, failing at top level, failing inside open containers) gives what parsing it
    alone gives.  Trivial in the model; that the long-lived C++ JsonParser object behaves the same
@@ -93,6 +132,42 @@ Example c19_double_huge_exponent :
   parse_text [50; 53; 101; 49; 50; 51; 52; 53; 54; 55; 56; 57; 48; 49; 50; 51; 52; 53] =
   POk (JDbl false 25 0 0 (-2045911175)%Z) [].     (* 25e123456789012345: exponent mod 2^32 as int32 *)
 Proof. vm_compute. reflexivity. Qed.
+
+(* Numbers at text level, doubles included, without any floating point: whatever ParseNumber makes
+   of ANY text it accepts - an integer node, or a JsonDouble keeping sign / integer part / leading
+   fractional zeros / fraction / int32 exponent exactly as DoubleRepresentation stores them - is
+   written by JsonWriter (JsonDouble::ToString = AsString(rep)) to a text that parses again, in any
+   context a value can be followed by, to a value whose text is the same:
+   write o parse o write = write.  The single excluded corner (RTDouble.value_corner) is a double
+   "-N" with N > 2^63 and neither fraction nor exponent, e.g. from "-18446744073709551615.0": its
+   text "-18446744073709551615" is read by the integer path, whose int64 negation wraps
+   (c19_number_text_corner_refuted). *)
+Theorem c19_number_text_roundtrip :
+  forall (t : list N) (v : jv) (r0 rest : list N),
+    parse_number t = POk v r0 -> follow rest -> value_corner v = false ->
+    exists v', parse_number (write cx_parsed 0 v ++ rest) = POk v' rest /\
+               write cx_parsed 0 v' = write cx_parsed 0 v.
+Proof. exact number_text_rt. Qed.
+Print Assumptions c19_number_text_roundtrip.
+
+(* The same stated on the representation: every DoubleRepresentation in the ranges of its fields. *)
+Theorem c19_double_text_roundtrip :
+  forall (neg : bool) (full lz frac : N) (ex : Z) (rest : list N),
+    full < 18446744073709551616 -> lz < 4294967296 -> frac < 18446744073709551616 ->
+    (-2147483648 <= ex < 2147483648)%Z -> follow rest ->
+    neg_wrap_corner neg full frac ex = false ->
+    exists v', parse_number (dbl_string neg full lz frac ex ++ rest) = POk v' rest /\
+               write cx_parsed 0 v' = dbl_string neg full lz frac ex.
+Proof. exact dbl_rt. Qed.
+Print Assumptions c19_double_text_roundtrip.
+
+Theorem c19_number_text_corner_refuted :
+  exists v v', parse_number [45;49;56;52;52;54;55;52;52;48;55;51;55;48;57;53;53;49;54;49;53;46;48] = POk v [] /\
+               value_corner v = true /\
+               parse_number (write cx_parsed 0 v) = POk v' [] /\
+               write cx_parsed 0 v' <> write cx_parsed 0 v.
+Proof. exact neg_wrap_refuted. Qed.
+Print Assumptions c19_number_text_corner_refuted.
 
 (* Write-then-parse is the identity.  For EVERY value tree v accepted by the guard RTDefs.wfb
    (printable-ASCII strings and keys (32..126); JUInt < 2^32, JInt in [-2^31, 2^31), JUInt64 < 2^64,
@@ -282,6 +357,23 @@ Theorem c19_patch_guard_exact :
     (apply_op o d = rfc_op o d <-> quirk_kind o d = 0).
 Proof. exact quirk_exact. Qed.
 Print Assumptions c19_patch_guard_exact.
+
+(* ... and that corner as an exact side condition: the identity copy of a location that resolves
+   conforms exactly when RFC 6902's add of the value onto its own location is the identity - true for
+   a member of an object (the value replaces itself), false for an array element (it is duplicated). *)
+Theorem c19_patch_copy_identity_exact :
+  forall (from to : list (list N)) (v src : jv),
+    toks_eqb from to = true -> rfc_get v from = Some src ->
+    (apply_op (PCopy (Some from) (Some to)) (Some v) = rfc_op (PCopy (Some from) (Some to)) (Some v)
+     <-> rfc_add v to src = Some v).
+Proof. exact copy_identity_exact. Qed.
+Print Assumptions c19_patch_copy_identity_exact.
+Example c19_copy_identity_object_conforms :
+  let v := JObj [([97], JUInt 1); ([98], JArr [JUInt 2])] in rfc_add v [[98]] (JArr [JUInt 2]) = Some v.
+Proof. reflexivity. Qed.
+Example c19_copy_identity_array_departs :
+  let v := JArr [JUInt 1; JUInt 2] in rfc_add v [[49]] (JUInt 2) = Some (JArr [JUInt 1; JUInt 2; JUInt 2]).
+Proof. reflexivity. Qed.
 
 (* Without the guard the statement is false (known finding C19-patch-dash-last-element). *)
 Theorem c19_patch_rfc_refuted : exists ops d, data_apply ops d <> rfc_patch ops d.
